@@ -5,11 +5,15 @@ import "verifharness/vh"
 
 func main() {
 	vh.Main(map[string]vh.Mode{
-		"c09":      c09,
-		"c43":      c43,
-		"c36":      c36,
-		"c36probe": c36probe,
-		"c08":      c08,
-		"c11dict":  c11dict,
+		"c09":         c09,
+		"c09conc":     c09conc,
+		"c09stress":   c09stress,
+		"c43":         c43,
+		"c43sf":       c43sf,
+		"c36":         c36,
+		"c36probe":    c36probe,
+		"c08":         c08,
+		"c11dict":     c11dict,
+		"c11dictconn": c11dictconn,
 	})
 }
